@@ -5,6 +5,7 @@ package jp
 import (
 	"regexp"
 	"strconv"
+	"strings"
 )
 
 // Equation represents JSON Path script and filter equations. They are used to
@@ -321,9 +322,27 @@ func (e *Equation) appendValue(buf []byte, v any) []byte {
 	case Expr:
 		buf = tv.Append(buf)
 	case *regexp.Regexp:
-		buf = AppendString(buf, tv.String(), '/')
+		buf = AppendString(buf, escapeSlash(tv.String()), '/')
 	}
 	return buf
+}
+
+// escapeSlash escapes the / characters of a regex that are not already
+// escaped so the regex can be written between / delimiters and read back.
+func escapeSlash(s string) string {
+	if strings.IndexByte(s, '/') < 0 {
+		return s
+	}
+	b := make([]byte, 0, len(s)+4)
+	escaped := false
+	for _, c := range []byte(s) {
+		if c == '/' && !escaped {
+			b = append(b, '\\')
+		}
+		escaped = c == '\\' && !escaped
+		b = append(b, c)
+	}
+	return string(b)
 }
 
 // String representation of the equation.
